@@ -78,10 +78,12 @@ structure St where
   recorded : Dev → Nat
   delivered : Dev → Nat
   last : Dev → Option Meta
+  /-- ghost: the batches of the successful uploads, oldest first -/
+  log : List Recs := []
 
 def St.init : St :=
   { pending := Recs.empty, inflight := [], recorded := fun _ => 0, delivered := fun _ => 0,
-    last := fun _ => none }
+    last := fun _ => none, log := [] }
 
 inductive Op where
   | record (d : Dev) (m : Meta)
@@ -103,7 +105,8 @@ def step (s : St) : Op → St
     | none => s
     | some b =>
       { s with inflight := s.inflight.eraseIdx i,
-               delivered := fun k => s.delivered k + cnt b.recs k }
+               delivered := fun k => s.delivered k + cnt b.recs k,
+               log := s.log ++ [b.recs] }
   | .endFail i =>
     match s.inflight[i]? with
     | none => s
@@ -145,5 +148,112 @@ def lastRec (d : Dev) : List Op → Option Meta
     | some m' => some m'
     | none => if k = d then some m else none
   | _ :: os => lastRec d os
+
+/-! ## The uploader: `backendpb.BillStat.Upload` and `recordToProtobuf`
+
+`Record.Queries` is an `int32`; `Record` increments it and `remergeRecords` adds to it with Go's
+wrapping arithmetic, and `recordToProtobuf` converts it with `uint32(r.Queries)`.  The model keeps
+naturals; `wrap32 n` is what the real field holds when the model holds `n` (see
+`Props/C16.lean: int32_tracks_nat`). -/
+
+/-- The value of a Go `int32` that mathematically should hold `z`. -/
+def wrap32 (z : Int) : Int := (z + 2147483648) % 4294967296 - 2147483648
+
+/-- Go's `uint32(x)` for an `int32` `x`. -/
+def toU32 (z : Int) : Nat := (z % 4294967296).toNat
+
+/-- `DeviceBillingStat` as it goes on the wire. -/
+structure Wire where
+  dev : Dev
+  secs : Int
+  nanos : Int
+  ctry : Nat
+  proto : Nat
+  asn : Nat
+  queries : Nat
+deriving DecidableEq, Repr
+
+/-- `recordToProtobuf`: `timestamppb.New` splits the time into seconds and non-negative
+nanoseconds; the count is converted from the wrapped `int32`. -/
+def toWire (d : Dev) (r : Rec) : Wire :=
+  { dev := d, secs := r.m.time / 1000000000, nanos := r.m.time % 1000000000, ctry := r.m.ctry,
+    proto := r.m.proto, asn := r.m.asn, queries := toU32 (wrap32 r.n) }
+
+/-- How the stream of one `Upload` call behaves. -/
+inductive CloseRes where
+  | ack      -- `CloseAndRecv` returns the backend's response
+  | eof      -- `CloseAndRecv` returns `io.EOF` (treated as success by the code)
+  | err      -- any other error
+deriving DecidableEq, Repr
+
+structure Backend where
+  openFails : Bool
+  sendFailsAt : Option Nat
+  close : CloseRes
+
+/-- The send loop of `Upload` from message number `i` on: (no error?, messages sent). -/
+def sendAll (b : Backend) : Nat → List Wire → Bool × List Wire
+  | _, [] => (true, [])
+  | i, w :: ws =>
+    if b.sendFailsAt = some i then (false, [])
+    else ((sendAll b (i + 1) ws).1, w :: (sendAll b (i + 1) ws).2)
+
+/-- `BillStat.Upload`: (returned nil?, messages sent).  An empty batch opens no stream. -/
+def upload (b : Backend) (batch : List Wire) : Bool × List Wire :=
+  if batch.isEmpty then (true, [])
+  else if b.openFails then (false, [])
+  else if !(sendAll b 0 batch).1 then (false, (sendAll b 0 batch).2)
+  else
+    match b.close with
+    | .err => (false, (sendAll b 0 batch).2)
+    | _ => (true, (sendAll b 0 batch).2)
+
+/-! ## An independent specification: the ledger
+
+What the recorder is *for*, written without maps of shared records and without a merge: per
+device a counter of queries that are owed to the backend, the data of its most recent query, the
+counters handed to the upload in progress (at most one: refreshes are serialised), and the list
+of reports the backend has acknowledged.  `Props/C16.lean` proves that the recorder refines it. -/
+
+structure Ledger where
+  owed : Dev → Nat
+  lastM : Dev → Option Meta
+  flying : Option (Dev → Nat) := none
+  flyMeta : Dev → Option Meta := fun _ => none
+  paid : Dev → Nat
+  reports : List Recs := []
+
+def Ledger.init : Ledger :=
+  { owed := fun _ => 0, lastM := fun _ => none, flying := none, flyMeta := fun _ => none,
+    paid := fun _ => 0, reports := [] }
+
+/-- What is shown for a device with `n` owed queries whose most recent query had data `m`. -/
+def view (n : Nat) (m : Option Meta) : Option Rec :=
+  match m with
+  | none => none
+  | some m => if n = 0 then none else some ⟨m, n⟩
+
+def Ledger.step (l : Ledger) : Op → Ledger
+  | .record d m =>
+    { l with owed := fun k => if k = d then l.owed k + 1 else l.owed k,
+             lastM := fun k => if k = d then some m else l.lastM k }
+  | .begin =>
+    match l.flying with
+    | some _ => l
+    | none => { l with flying := some l.owed, flyMeta := l.lastM, owed := fun _ => 0 }
+  | .endOk i =>
+    match i, l.flying with
+    | 0, some f =>
+      { l with flying := none, paid := fun k => l.paid k + f k,
+               reports := l.reports ++ [fun k => view (f k) (l.flyMeta k)] }
+    | _, _ => l
+  | .endFail i =>
+    match i, l.flying with
+    | 0, some f => { l with flying := none, owed := fun k => l.owed k + f k }
+    | _, _ => l
+
+def Ledger.run (l : Ledger) : List Op → Ledger
+  | [] => l
+  | o :: os => Ledger.run (l.step o) os
 
 end Agd.BillStat
